@@ -95,7 +95,9 @@ def has_rts(spec):
 
 
 def has_f64_host(spec):
-    return any(W.contains_kind(W.ST(n), spec.structs, ("f64",)) for n in spec.host_structs())
+    # (64-bit integers like f64: encase implements ShaderType for none of them)
+    return any(W.contains_kind(W.ST(n), spec.structs, ("f64", "i64", "u64"))
+               for n in spec.host_structs())
 
 
 def has_bool_host(spec):
@@ -158,7 +160,7 @@ def gen_cases(family, tier):
                     cf.append({"opt": {"mv": mv}, "plain": True})
                 cf.append({"opt": {"bh": False, "en": (not f64) or rts, "mv": mv,
                                    "se": r.random() < 0.3, "bv": r.random() < 0.5}})
-            if len(directed) <= i < len(directed) + nm:
+            if len(directed) <= i < len(directed) + nm or getattr(spec, "matrix", False):
                 # full derive matrix for C09 (16 switch sets x 3 representations)
                 for mv in ("rust", "glam", "nalgebra"):
                     for bits in range(16):
@@ -177,7 +179,8 @@ def gen_cases(family, tier):
             r = core.rng("entry", i)
             spec = F.fam_entry(r, i)
             c = Case("e%d" % i, family, spec)
-            c.cfgs = [{"opt": {"mv": "rust", "bv": True}}, {"opt": {"mv": "glam"}},
+            # (validate "all" = Some(ValidationOptions::default()), the form the crate's docs use)
+            c.cfgs = [{"opt": {"mv": "rust", "bv": True}}, {"opt": {"mv": "glam", "val": "all"}},
                       {"opt": {"mv": "glam", "bv": True, "en": True}},
                       {"opt": {"mv": "nalgebra", "bv": True}}]
             cases.append(c)
@@ -349,9 +352,10 @@ def probe_c06(case, cfg):
             L.append("    { let (tid, tn) = wgpu::verif::field_type(|s: &m::%s| &s.%s); "
                      "let (eid, en) = wgpu::verif::type_of::<%s>(); "
                      'emit("field", j!({"struct": %s, "field": %s, "i": %d, "type_name": tn, '
-                     '"expected": en, "eq": tid == eid, "offset": %s, "rts": %s})); }' % (
+                     '"expected": en, "eq": tid == eid, "offset": %s, "rts": %s, "size": '
+                     'wgpu::verif::field_size(|s: &m::%s| &s.%s)})); }' % (
                          s, mbr["name"], exp, rs_str(s), rs_str(mbr["name"]), i, off,
-                         "true" if rts else "false"))
+                         "true" if rts else "false", s, mbr["name"]))
     L.append("}")
     return "\n".join(L) + "\n" if n else None
 
